@@ -15,8 +15,8 @@ from fractions import Fraction
 from common import frac, rstr, rparse, close, VERIF, REPO
 
 ID = "C12"
-LEAN_TARGETS = ["Strengths.Props.C12"]
-PROP_FILES = ["Strengths/Props/C12.lean"]
+LEAN_TARGETS = ["Strengths.Props.C12", "Strengths.Props.C12Classes"]
+PROP_FILES = ["Strengths/Props/C12.lean", "Strengths/Props/C12Classes.lean"]
 GEN_GROUPS = ["DictKeys", "Units"]
 RULE = ("objects of every kind (network, grid, graph, system, script, trajectory) are generated from a JSON-able "
         "spec (1-4 species, 0-4 reactions with orders 0-4 per side, empty sides, repeated species, labelled/unlabelled, "
@@ -879,17 +879,14 @@ def run(ctx):
     rng = ctx.rng
     aliases = reader_aliases()
     ctx.notes += [
-        "roundtrip / reserialise are proved through the generic reader+writer for species (scalar and per-environment quantities, "
-        "theorems species_roundtrip, species_reserialise); for reaction, network, grid, graph, system, script the per-kind laws "
-        "(written_dict_passes_keys on the generated key lists of every class, units_roundtrip, quantity_roundtrip, env_roundtrip, "
-        "unit_array_physical, omitted_key_reads_default, paths, multi_file_equals_inline) are proved and the class-level assembly is "
-        "covered by the correspondence (model vs real reader/writer) and the oracle, not by a theorem (roundtrip_partial); "
-        "trajectories (save/load only, no dictionary functions) are covered by the key tables and the oracle only",
-        "alias_interchangeable is proved on the generated tables (aliases_disjoint, emitted_keys_accepted: canonical keys, "
-        "documented_aliases_accepted); the general statement about process_input_dict_keys on a renamed dictionary is not proved: "
-        "oracle mode `alias` + correspondence edits `alias` / `two-synonyms`",
-        "Printable (the printed unit text is read back with the same dimension, SI scale and text) is a hypothesis of the quantity "
-        "theorems: it is the print/parse law of the unit grammar (C18); discharged by evaluation for example units (printable_examples)",
+        "roundtrip + reserialise are proved at class level, for all well-formed objects, through the one generic reader/writer "
+        "(generic_roundtrip, toDictG_reparse): species, reaction, network, grid, graph (nodes/edges with own or inherited units), "
+        "system (explicit state and chemostat map), script (t_max made explicit); the unit-text hypothesis is discharged from "
+        "C18 show_parse_units (printable_of_valid).  Not covered by a theorem: systems whose state / chemostat map is left to the "
+        "generated default (C13), trajectories (save/load over real files: key tables + oracle), JSON text and file contents "
+        "(trusted primitives), children given as file paths beyond multi_file_equals_inline",
+        "alias_interchangeable: see the theorem list of Props/C12.lean; oracle mode `alias` + correspondence edits `alias` / "
+        "`two-synonyms` cover the real code",
     ]
     ctx.extra["reader_alias_groups"] = {k: len(v) for k, v in aliases.items()}
     counts = {"network": ctx.n(40, 1500), "grid": ctx.n(30, 800), "graph": ctx.n(30, 800), "system": ctx.n(40, 1500),
